@@ -16,6 +16,15 @@
 use crate::trait_group::c_void;
 use std::prelude::v1::*;
 
+// Verification hook: the Kani compiler overrides the assertion macros through `#[macro_use]`, which
+// is ambiguous with the glob import of the std prelude above. Only `cfg(kani)` builds see this.
+#[cfg(kani)]
+#[allow(unused_imports)]
+use core::{
+    assert, assert_eq, assert_ne, debug_assert, debug_assert_eq, debug_assert_ne, panic,
+    unreachable,
+};
+
 // C style callbacks that are needed so that C code can easily use callback like functions
 #[repr(transparent)]
 #[cfg_attr(feature = "abi_stable", derive(::abi_stable::StableAbi))]
